@@ -101,6 +101,14 @@ def generate(tier, seed, k):
     vlib.require_ok(res, "StreamGen schedules (theorem instance on every schedule)")
     if counts["def"] != len(k) or counts["sch"] == 0:
         raise vlib.Inconclusive("StreamGen printed %s for %d streams" % (counts, len(k)))
+    # TLC's workers print in a different order on every run: a stable order makes scenario numbers (the seeded
+    # sample of reader logs, replay documents) reproducible
+    with open(scen) as f:
+        lines = f.readlines()
+    lines.sort()
+    with open(scen, "w") as f:
+        f.writelines(lines)
+    del lines
     defs = {}
     with open(defs_path) as f:
         for line in f:
